@@ -82,6 +82,7 @@ type fnEnc struct {
 	obls     []*Obligation
 	oblNames map[string]int
 	assumptions map[string]bool
+	inlineArr   map[string]Term // fresh backing stores of sliced inline array fields
 	strLits  map[string]Term
 	ghostVars map[string]Term // ghost (function-level) variables
 	implFns   map[string]*types.Interface
